@@ -233,6 +233,7 @@ class Interp:
         self.max_steps = max_steps
         self.assumptions_used = set()
         self.calls_seen = {}
+        self.clock_w = 64
         self.reset([])
 
     # ------------------------------------------------------------------ path management
@@ -243,6 +244,16 @@ class Interp:
         self.pending = []       # alternative prefixes discovered on this run
         self.steps = 0
         self.nfresh = getattr(self, "nfresh", 0)
+
+    def clock_read(self):
+        """the clock is an environment input: an arbitrary non-decreasing 64-bit instant (below 2^62) per reading"""
+        if not getattr(self, "clock_on", False):
+            return OPAQUE("instant")
+        w = self.clock_w
+        n = self.fresh("now", "(_ BitVec %d)" % w)
+        self.pc.append("(and (bvuge %s %s) (bvult %s %s))" % (n, self.clock_last, n, bv(w, 1 << (w - 2))))
+        self.clock_last = n
+        return BV(w, n)
 
     def fresh(self, hint, sort):
         self.nfresh += 1
@@ -390,7 +401,7 @@ class Interp:
             a, b = [self.operand(x, fr) for x in split_top(m.group(2))]
             r = _SymexExec.binop(None, m.group(1), a, b, False)
             if r.kind == "tuple":
-                return Val("struct", name="(ovf)", fields=r.items)
+                return Val("struct", name="(ovf)", fields=[self.fold(x) for x in r.items])
             return self.fold(r)
         m = re.match(r"^Not\((.*)\)$", rhs)
         if m:
@@ -623,7 +634,32 @@ class Interp:
             self.assumptions_used.add("tracing is disabled (every `trace!` guard `Level <= LevelFilter` is false)")
             return BOOL("false")
         if re.search(r"Instant::now$", c):
-            return OPAQUE("instant")
+            return self.clock_read()
+        if re.search(r"Instant::elapsed$", c):
+            t = D(a[0])
+            if t.kind != "bv":
+                return OPAQUE("duration")
+            now = self.clock_read()
+            return BV(now.w, "(bvsub %s %s)" % (now.s, t.s))
+        m = re.search(r"<Duration as PartialOrd>::(gt|ge|lt|le)$", c)
+        if m:
+            x, y = D(a[0]), D(a[1])
+            if x.kind != "bv" or y.kind != "bv":
+                raise Unsupported("comparison of opaque durations")
+            return self.fold(BOOL("(%s %s %s)" % ({"gt": "bvugt", "ge": "bvuge", "lt": "bvult", "le": "bvule"}[m.group(1)], x.s, y.s)))
+        if re.search(r"HashMap::<.*>::retain::<", c):
+            mp = D(a[0])
+            cl = a[1]
+            f = self.closure_fn(cl)
+            keep = []
+            for ent in list(mp.entries):
+                r = self.call_fn(f, [Val("ref", lst=[cl], idx=0), Val("ref", lst=ent, idx=0), Val("ref", lst=ent, idx=1)])
+                if r.kind != "bool":
+                    raise Unsupported("retain predicate returned " + r.kind)
+                if self.branch(r.s, "HashMap::retain predicate"):
+                    keep.append(ent)
+            mp.entries[:] = keep
+            return OPAQUE("unit")
         if re.search(r"fmt::rt::Argument::<'_>::new_|Arguments::<'_>::(new|from_str)|^format$|alloc::fmt::format|must_use::<|as ToString>::to_string$", c):
             return OPAQUE("fmt")
         if re.search(r"^<S as Into<SequenceId>>::into$|as Into<(\w+::)*SequenceId>>::into$", c):
@@ -865,6 +901,12 @@ class Interp:
                 return v
             if v.kind == "vec":
                 return Val("iter", items=list(v.items), pos=[0], sub=None)
+            if v.kind == "map":
+                self.assumptions_used.add("HashMap iteration visits entries in insertion order; keys are unique")
+                return Val("iter", items=[Val("struct", name="(tuple)", fields=[k, x]) for k, x in v.entries], pos=[0], sub=None)
+            if v.kind == "ref" and D(v).kind == "vec":
+                vv = D(v)
+                return Val("iter", items=[Val("ref", lst=vv.items, idx=k) for k in range(len(vv.items))], pos=[0], sub=None)
             raise Unsupported("into_iter of " + v.kind)
         if re.search(r"as Iterator>::flatten$", c):
             return Val("flatten", inner=a[0])
@@ -880,7 +922,7 @@ class Interp:
                 if x.idx == 1:
                     return SOME(x.fields[0])
             return NONE()
-        if re.search(r"IntoIter<.*> as Iterator>::next$|slice::Iter<.*> as Iterator>::next$", c):
+        if re.search(r" as Iterator>::next$", c) and D(a[0]).kind == "iter":
             it = D(a[0])
             if it.pos[0] < len(it.items):
                 x = it.items[it.pos[0]]
